@@ -115,6 +115,7 @@ class FakeUsb:
         self._ctx = _UsbCtx()
         self.settings = {}
         self._reply = [0]
+        self.worlds = None          # address tuple -> World (several links on one dongle)
 
     def set_configuration(self, n):
         pass
@@ -129,7 +130,14 @@ class FakeUsb:
         return 0
 
     def write(self, endpoint, data, timeout=None):
-        self._reply = self.world.transfer([int(x) for x in data])
+        w = self.world
+        if self.worlds:
+            addr = tuple(self.settings.get(0x02, (0, ()))[1] or ())
+            w = self.worlds.get(addr)
+            if w is None:
+                self._reply = [0]       # nobody listens on this address
+                return
+        self._reply = w.transfer([int(x) for x in data])
 
     def read(self, endpoint, n, timeout=None):
         return array.array('B', self._reply)
@@ -186,11 +194,16 @@ class World:
         self.sched = None
         self.radio_rec = None
         self.shared_rec = None
-        self.gate_closed = False
+        self.done = False           # free mode: this link's script and drain are through
+        self.group = [self]         # links sharing one dongle
         self.tail_acked = 0
         self.data_phase = False
         self.senders_left = 0
         self.wedged = False
+
+    @property
+    def gate_closed(self):
+        return all(x.done for x in self.group)
 
     def log(self, e):
         self.ev.append(e)
@@ -253,9 +266,9 @@ class World:
         if self.ntx >= len(fr['outcomes']) and self.senders_left == 0:
             need = fr['nup'] + fr['ndown'] + 4 + 2
             if self.tail_acked >= need:
-                self.gate_closed = True
-        if self.ntx >= len(fr['outcomes']) + 2000:      # something is wedged: end the run (not quiet)
-            self.gate_closed = True
+                self.done = True
+        if self.ntx >= len(fr['outcomes']) + 2000 and not self.done:   # something is wedged: end the run (not quiet)
+            self.done = True
             self.wedged = True
 
     def cf_queue(self, p):
@@ -465,7 +478,7 @@ def _run_steps(w, s, sc, info):
     run(Only([rcv]), lambda: w.drv.in_queue.empty() and rcv.pending is not None)
 
 
-def _run_free(w, s, sc, rng):
+def _spawn_free(w, s, sc):
     fr = sc['free']
     gates = {}
     senders = []
@@ -516,18 +529,78 @@ def _run_free(w, s, sc, rng):
     for b in senders:
         s.spawn(b, 'sender')
     s.spawn(receiver, 'receiver')
+
+
+def _run_free(w, s, sc, rng):
+    _spawn_free(w, s, sc)
     return s.run(until=lambda: w.radio_blocked() and w.drv.in_queue.empty() and
                  (w.senders_left == 0 or w.wedged))
 
 
+def execute_multi(sc, mutant=None):
+    """Several links (different addresses) multiplexed over ONE dongle by the real _SharedRadio;
+    every link has its own peer, outcome script and application threads.  Returns one trace per
+    link (judged independently)."""
+    import cflib.crtp.radiodriver as rd
+    import cflib.drivers.crazyradio as cr
+    worlds = [World(l) for l in sc['links']]
+    for w in worlds:
+        w.group = worlds
+    usb = FakeUsb(worlds[0])
+    usb.worlds = {}
+    saved = (rd.queue, rd.Crazyradio, rd._nr_of_retries)
+    undo = MUTANTS[mutant](rd) if mutant else None
+
+    class ScriptedCrazyradio(cr.Crazyradio):
+        def __init__(self, device=None, devid=0, serial=None):
+            cr.Crazyradio.__init__(self, device=usb, devid=devid)
+    rd.queue = types.SimpleNamespace(Queue=LogQueue, Empty=vqueue.Empty, Full=vqueue.Full)
+    rd.Crazyradio = ScriptedCrazyradio
+    rd.RadioManager._radios = []
+    try:
+        rd.set_retries_before_disconnect(sc['links'][0]['retries'])
+        rng = random.Random(sc.get('seed', 0))
+        with vsched.scheduler(vsched.RandomPolicy(rng), max_steps=5000000) as s:
+            for k, (w, l) in enumerate(zip(worlds, sc['links'])):
+                w.sched = s
+                LogQueue.world = w
+                drv = rd.RadioDriver()
+                w.drv = drv
+                addr = (0xE7, 0xE7, 0xE7, 0xE7, k + 1)
+                usb.worlds[tuple(reversed(addr))] = w      # parse_uri unpacks the hex string little-endian-wise
+
+                def on_err(msg, w=w):
+                    w.log({'e': 'err', 'm': 'loop' if 'Too many packets lost' in str(msg) else 'other'})
+                drv.connect('radio://0/80/2M/E7E7E7E7%02X' % (k + 1), None, on_err)
+                w.radio_rec = drv._thread._vs_rec
+                w.shared_rec = rd.RadioManager._radios[0]._vs_rec
+            usb.worlds = {tuple(w.drv._radio._address): w for w in worlds}
+            for w, l in zip(worlds, sc['links']):
+                _spawn_free(w, s, l)
+            s.run(until=lambda: all(w.radio_blocked() and w.drv.in_queue.empty() and
+                                    (w.senders_left == 0 or w.wedged) for w in worlds))
+            dead = [t for t in s.report() if t['status'] == 'dead']
+            fins = [{'quiet': bool(w.senders_left == 0 and w.radio_blocked() and not dead and not w.wedged),
+                     'inq': w.drv.in_queue.qsize(), 'st': w.st(),
+                     'dead': [t.get('traceback', '')[-400:] for t in dead]} for w in worlds]
+    finally:
+        LogQueue.world = None
+        rd.queue, rd.Crazyradio, rd._nr_of_retries = saved
+        rd.RadioManager._radios = []
+        if undo:
+            undo()
+    return [{'mode': l['mode'], 'tail': list(l['tail']), 'deny': list(l['deny']), 'retries': l['retries'],
+             'negatt': NEGATT, 'ev': w.ev, 'fin': f} for w, l, f in zip(worlds, sc['links'], fins)]
+
+
 
 # --------------------------------------------------------------------------- in-memory mutants
-def _rewrite(rd, fn_name, old, new):
-    """Replacement for a method of _RadioDriverThread: its own source with one snippet changed,
-    compiled in radiodriver's namespace (the /repo file is untouched)."""
+def _rewrite(rd, fn_name, old, new, cls_name='_RadioDriverThread'):
+    """Replacement for a method of _RadioDriverThread (or _SharedRadio): its own source with one
+    snippet changed, compiled in radiodriver's namespace (the /repo file is untouched)."""
     import inspect
     import textwrap
-    cls = rd._RadioDriverThread
+    cls = getattr(rd, cls_name)
     src = textwrap.dedent(inspect.getsource(getattr(cls, fn_name)))
     if src.count(old) != 1:
         raise common.MachineryError('mutant snippet for %s not found exactly once: %r' % (fn_name, old))
@@ -538,8 +611,8 @@ def _rewrite(rd, fn_name, old, new):
     return lambda: setattr(cls, fn_name, orig)
 
 
-def _m(fn_name, old, new):
-    return lambda rd: _rewrite(rd, fn_name, old, new)
+def _m(fn_name, old, new, cls_name='_RadioDriverThread'):
+    return lambda rd: _rewrite(rd, fn_name, old, new, cls_name)
 
 
 MUTANTS = {
@@ -563,6 +636,18 @@ MUTANTS = {
     # ack payload queued twice
     'queue_ack_twice': _m('run', 'self._in_queue.put(inPacket)', 'self._in_queue.put(inPacket)\n            if inPacket.port != 15:\n                self._in_queue.put(inPacket)'),
 }
+
+# mutants of the dongle multiplexer, visible only with several links on one dongle
+MULTI_MUTANTS = {
+    # the shared radio no longer re-selects the link's address before transmitting
+    'shared_no_set_address': _m('run', 'self._radio.set_channel(channel)\n            self._radio.set_address(address)',
+                                'self._radio.set_channel(channel)', '_SharedRadio'),
+    # the ack goes to the response queue of the instance that asked last time
+    'shared_stale_rsp_queue': _m('run', 'ack = self._radio.send_packet(data)\n            self._rsp_queues[command[0]].put(ack)',
+                                 'ack = self._radio.send_packet(data)\n            self._rsp_queues[getattr(self, "_prev", command[0])].put(ack)\n            self._prev = command[0]',
+                                 '_SharedRadio'),
+}
+MUTANTS.update(MULTI_MUTANTS)
 
 
 # --------------------------------------------------------------------------- scenario sources
@@ -739,6 +824,26 @@ def random_scenarios(tier, rng):
                     'free': {'outcomes': outcomes, 'senders': plans, 'cfq': cfq, 'policy': 'random',
                              'rx_waits': rng.choice([[-1], [-1, 0.01, 0], [0.01], [0, -1]])}})
     return out
+
+
+def dual_scenarios(tier, rng):
+    """Two or three links with different addresses multiplexed over one dongle (_SharedRadio)."""
+    out = []
+    for i in range(4 if tier == 'quick' else 40):
+        n = 2 + (i % 3 == 2)
+        links = random_scenarios('quick', rng)[:n * 4:4]      # style 0 (no link failure)
+        for k, l in enumerate(links):
+            l['retries'] = links[0]['retries']              # _nr_of_retries is one module global
+            l['free']['outcomes'] = l['free']['outcomes'][:rng.randint(120, 400)]
+            l['free']['senders'] = [[x for x in pl if x[0] < len(l['free']['outcomes']) - 1] for pl in l['free']['senders']]
+            l['free']['cfq'] = [x for x in l['free']['cfq'] if x[0] < len(l['free']['outcomes']) - 1]
+        out.append({'links': links, 'seed': rng.randrange(1 << 30)})
+    return out
+
+
+def _exec_multi_job(job):
+    sc, mutant = job
+    return execute_multi(sc, mutant)
 
 
 def materialize(sc):
@@ -953,20 +1058,24 @@ def main(tier, seed, replay=None):
     if replay:
         rp = json.load(open(replay))['replay']
         _init()
-        tr, info = execute(materialize(rp['scenario']))
-        bad, _d, _n = judge(out, [tr], 'replay')
+        if 'links' in rp['scenario']:
+            trs = execute_multi(rp['scenario'])
+            pre = 'multi:'
+        else:
+            trs = [execute(materialize(rp['scenario']))[0]]
+            pre = ''
+        bad, _d, _n = judge(out, trs, 'replay')
         for (i, clause, at) in bad:
-            out.violation(signature(tr, clause, at), clause, {'event_index': at, 'events': tr['ev'][max(0, at - 12):at + 2]},
-                          {'scenario': rp['scenario']})
+            out.violation(pre + signature(trs[i], clause, at), clause,
+                          {'event_index': at, 'events': trs[i]['ev'][max(0, at - 12):at + 2]}, {'scenario': rp['scenario']})
         return out.finish()
 
     # 1. design spec: exhaustive checks; every bug variant must be refuted (vacuity guards)
     main_cfg = 'MC_Safelink_quick.cfg' if tier == 'quick' else 'MC_Safelink_thorough.cfg'
-    jobs = [('main', tlc.check, ('MC_Safelink.tla', main_cfg), dict(workers=workers or 8, timeout=3000,
-                                                                    coverage=(tier == 'thorough'))),
+    jobs = [('main', tlc.check, ('MC_Safelink.tla', main_cfg), dict(workers=workers or 8, timeout=3000)),
             ('modes', tlc.check, ('MC_Safelink.tla', 'MC_Safelink_modes.cfg'), dict(workers=4, timeout=1500))]
     if tier == 'thorough':
-        jobs.append(('quick', tlc.check, ('MC_Safelink.tla', 'MC_Safelink_quick.cfg'), dict(workers=4, timeout=3000)))
+        jobs.append(('quick', tlc.check, ('MC_Safelink.tla', 'MC_Safelink_quick.cfg'), dict(workers=4, timeout=3000, coverage=True)))
         jobs.append(('live', tlc.check, ('MC_Safelink.tla', 'MC_Safelink_live.cfg'), dict(workers=4, timeout=3000)))
         jobs.append(('bug:live_dequeue_on_lost', expect_temporal_violation,
                      ('MC_Safelink.tla', 'MC_Safelink_bug_live_dequeue_on_lost.cfg'), dict(workers=2, timeout=1500)))
@@ -1023,6 +1132,21 @@ def main(tier, seed, replay=None):
     rnd = random_scenarios(tier, rng)
     st_r = new_stats()
     check_blocks(out, rnd, 'random long runs', st_r, block=64)
+    duals = dual_scenarios(tier, rng)
+    dres = common.pmap(_exec_multi_job, [(sc, None) for sc in duals], init=_init)
+    dtr = [t for ts in dres for t in ts]
+    downer = [sc for sc, ts in zip(duals, dres) for _t in ts]
+    bad, drift, drained = judge(out, dtr, 'links multiplexed over one dongle')
+    st_r['traces'] += len(dtr)
+    st_r['events'] += sum(len(t['ev']) for t in dtr)
+    st_r['tx'] += sum(1 for t in dtr for e in t['ev'] if e['e'] == 'tx')
+    st_r['drift'] += len(drift)
+    st_r['drained'] += drained
+    st_r['not_quiet'] += sum(1 for t in dtr if not t['fin']['quiet'])
+    for (i, clause, at) in bad:
+        out.violation('multi:' + signature(dtr[i], clause, at), clause,
+                      {'event_index': at, 'events': dtr[i]['ev'][max(0, at - 12):at + 2], 'fin': dtr[i]['fin']},
+                      {'scenario': downer[i]})
     for k in ('traces', 'events', 'tx', 'drift', 'drained', 'errors', 'not_quiet'):
         stats[k] += st_r[k]
     stats['samples'] += st_r['samples'][:1]
@@ -1039,16 +1163,17 @@ def main(tier, seed, replay=None):
                 'retries); ALL main-loop words of length <= %d (a word is followed by an all-A drain, so shorter words '
                 'ending in A are subsumed) at patterns eager/late%s [%d traces]; ALL start-up loss patterns (2^j, j<=10%s) '
                 'x peer kinds [%d]; %d TLC -simulate behaviours replayed; %d seeded random runs of 200-%d transmissions with '
-                'random thread schedules; link errors occurred in %d traces; %d transmissions in total' %
+                'random thread schedules; %d runs with 2-3 links multiplexed over one dongle; link errors occurred in %d traces; '
+                '%d transmissions in total' %
                 (k, '/mid', nwords, ', sampled above 64 per j in quick' if tier == 'quick' else '', len(starts), len(sims),
-                 len(rnd), 600 if tier == 'quick' else 2000, stats['errors'], stats['tx']))
+                 len(rnd), 600 if tier == 'quick' else 2000, len(duals), stats['errors'], stats['tx']))
     out.samples = stats['samples'][:6]
     out.extra['transmissions'] = stats['tx']
     out.extra['events'] = stats['events']
 
     # 4. sensitivity: in-memory mutants of the driver must be rejected by the monitor
     sub = words[::max(1, len(words) // (240 if tier == 'quick' else 1500))] + starts[::max(1, len(starts) // (90 if tier == 'quick' else 300))] + rnd[:2]
-    names = sorted(MUTANTS)
+    names = sorted(set(MUTANTS) - set(MULTI_MUTANTS))
     mres = common.pmap(_exec_job, [(sc, name, False) for name in names for sc in sub], init=_init, maxtasks=400)
     mt = [r[0] for r in mres]
     o2 = common.Outcome('C01', tier, seed)
@@ -1057,6 +1182,19 @@ def main(tier, seed, replay=None):
         mine = [(i, c) for (i, c, _a) in mbad if k * len(sub) <= i < (k + 1) * len(sub)]
         clauses = sorted({c for (_i, c) in mine})
         out.sensitivity['mutant:' + name] = '%d of %d traces rejected (%s)' % (len(mine), len(sub), ','.join(clauses))
+        if not mine:
+            raise common.MachineryError('monitor did not reject in-memory mutant %s' % name)
+    mm = sorted(MULTI_MUTANTS)
+    mres = common.pmap(_exec_multi_job, [(sc, name) for name in mm for sc in duals[:2]], init=_init)
+    mt = [t for ts in mres for t in ts]
+    owner = [name for name in mm for sc in duals[:2] for _l in sc['links']]
+    o2 = common.Outcome('C01', tier, seed)
+    mbad, _d, _n = judge(o2, mt, 'multi mutants', count=False)
+    for name in mm:
+        mine = sorted({c for (i, c, _a) in mbad if owner[i] == name})
+        n_not_quiet = sum(1 for t, o in zip(mt, owner) if o == name and not t['fin']['quiet'])
+        out.sensitivity['mutant:' + name] = '%d of %d link traces rejected (%s), %d wedged' % (
+            sum(1 for (i, _c, _a) in mbad if owner[i] == name), owner.count(name), ','.join(mine), n_not_quiet)
         if not mine:
             raise common.MachineryError('monitor did not reject in-memory mutant %s' % name)
     # binding self-tests: corrupted traces must be rejected
